@@ -25,6 +25,7 @@ def run(ctx, L, tier):
     c20.shared_state(ctx, L)        # no state that survives from one compiled file / call to the next (module, class, closure, default argument)
     from . import c14
     c14.evaluator_state(ctx, L)      # isar sizes go through the model-time evaluator: no state between evaluations
+    isar_value_conversions(ctx, L)
     return sorted(set(o.rule for o in L.obligations))
 
 
@@ -195,3 +196,31 @@ def patch_actions(ctx, L):
     L.check(inn('return model.StructMember(name=member.name, type_name=member.type_name, definition=member.definition)', s) and
             inn('return model.Struct(node.name, [to_struct_member(mem) for mem in node.members])', s), 'C17f.member-order', '_struct', st.site(),
             'union -> struct keeps member order, names and types', s)
+
+
+def isar_value_conversions(ctx, L):
+    """isar front-end details that must match the prophy front-end: (a) enumerator values are read with base 0 (decimal and
+    0x / 0o / 0b spellings, like the prophy lexer's CONST8/10/16) before negative ones are mapped to their unsigned 32-bit wire
+    value; (b) only a missing / cyclic include is tolerated by make_include - any other failure inside the included file
+    (a patch rule that cannot be applied, a model error) must fail the compilation like it does for the prophy front-end."""
+    isar = ctx.py.mod('prophyc.parsers.isar')
+    me = isar.func('make_enum')
+    ints = [c for c in me.walk() if isinstance(c, ast.Call) and unparse(c.func) == 'int']
+    ok = bool(ints) and all(len(c.args) == 2 and isinstance(c.args[1], ast.Constant) and c.args[1].value == 0 for c in ints)
+    L.check(ok, 'C17a.isar-forms', 'make_enum|base-0', me.site(ints[0] if ints else None),
+            'enumerator values must be parsed with int(value, 0): with a fixed base a negative value written in hex (-0x0B) is not '
+            'recognised as a number, the ValueError is swallowed and the value is not mapped to its unsigned 32-bit form (prophy text '
+            'gives 4294967285, isar -11: the generated codec does not even import)', ws(unparse(ints[0])) if ints else '')
+    mi = isar.func('make_include')
+    hs = [h for h in ast.walk(mi.node) if isinstance(h, ast.ExceptHandler)]
+    names = set()
+    for h in hs:
+        if h.type is None:
+            names.add('<bare except>')
+        else:
+            for e in (h.type.elts if isinstance(h.type, ast.Tuple) else [h.type]):
+                names.add(unparse(e).split('.')[-1])
+    L.check(names <= {'CyclicIncludeError', 'FileNotFoundError'}, 'C17e.patch-semantics', 'make_include|handlers', mi.site(hs[0] if hs else None),
+            'make_include tolerates %s: everything that goes wrong while the included file is parsed, patched and evaluated (an '
+            'inapplicable patch rule, a model error) becomes a warning and an empty include, and the compilation succeeds'
+            % sorted(names), ws(unparse(hs[0]))[:200] if hs else '')
